@@ -7,7 +7,7 @@ for d in sorted(glob.glob('/verif/seeded/S*')):
     rows.append("| `%s` | %s | %s | %s |"%(os.path.basename(d), ", ".join(m["breaks"]), m["needs_to_manifest"].replace("|","/"), "<br>".join(x.replace("|","/") for x in m["detected_by"])))
 missed=sum(1 for d in glob.glob('/verif/seeded/S*') if 'MISSED' in open(d+'/meta.json').read())
 intro="""<!-- seeded-table:begin (regenerate from seeded/*/meta.json) -->
-%d changes written by fresh sub-agents in eight batches (each agent saw only one property's text; second-round agents were also
+%d changes written by fresh sub-agents in nine batches (each agent saw only one property's text; second-round agents were also
 told which ideas had already been used for that property). All were confirmed (`tools/seedtest.sh`: builds, existing suite
 unchanged, demonstration fails with / passes without the change) before being run against the checks. **%d were missed at
 first**, two more crashed a harness driver (tool error instead of a verdict); each of these pointed at a dimension the drivers did
